@@ -155,6 +155,13 @@ use vh_common::{json, Value};
 thread_local! {
     static CUR_ITEM: Cell<i64> = const { Cell::new(-1) };
     static CUR_W: RefCell<(String, bool)> = const { RefCell::new((String::new(), false)) };
+    static CUR_EW: RefCell<Option<String>> = const { RefCell::new(None) };
+}
+
+/// The id of the raw `when_empty` callback the calling thread is about to register (None: the
+/// `when_empty` calls of this thread are internal to a blocking send and are not recorded).
+pub fn set_current_empty_watcher(w: Option<&str>) {
+    CUR_EW.with(|c| *c.borrow_mut() = w.map(|s| s.to_string()));
 }
 
 /// The item the calling thread is about to send (attached to the hook event of its send).
@@ -195,6 +202,10 @@ impl Recorder {
                 let (w, obs) = CUR_W.with(|c| c.borrow().clone());
                 json!({"ev": "FlushReq", "w": w, "obs": obs})
             }
+            "when_empty" => match CUR_EW.with(|c| c.borrow().clone()) {
+                Some(w) => json!({"ev": "EmptyReq", "w": w}),
+                None => return,
+            },
             "take" => json!({"ev": "Take", "n": e.snapshot.unwrap().pending}),
             "take_empty" => json!({"ev": "TakeEmpty"}),
             "drop_sender_begin" => json!({"ev": "Closing", "by": "sender"}),
